@@ -1,6 +1,7 @@
 """Utility functions for STIX2 data markings."""
 
 import collections
+import collections.abc
 
 from stix2 import exceptions, utils
 
@@ -22,7 +23,7 @@ def _evaluate_expression(obj, selector):
     for items, value in iterpath(obj):
         path = '.'.join(items)
 
-        if path == selector and value:
+        if path == selector:
             return [value]
 
     return []
@@ -232,20 +233,20 @@ def iterpath(obj, path=None):
         path.append(varname)
         yield (path, varobj)
 
-        if isinstance(varobj, dict):
+        if isinstance(varobj, collections.abc.Mapping):
 
             for item in iterpath(varobj, path):
                 yield item
 
         elif isinstance(varobj, list):
 
-            for item in varobj:
-                index = '[{0}]'.format(varobj.index(item))
+            for idx, item in enumerate(varobj):
+                index = '[{0}]'.format(idx)
                 path.append(index)
 
                 yield (path, item)
 
-                if isinstance(item, dict):
+                if isinstance(item, collections.abc.Mapping):
                     for descendant in iterpath(item, path):
                         yield descendant
 
